@@ -1,5 +1,6 @@
 import SpecVerif.Proofs.Lemmas.Sides
 import SpecVerif.Proofs.Lemmas.CRatField
+import SpecVerif.Generated.RangeSrc
 /-
   C06 — conversions among 'onesided', 'twosided' and 'centerdc' are refinements of one abstract
   object, a two-sided spectrum `S : ℕ → K` of `n = NFFT` bins.
@@ -277,5 +278,51 @@ example : @convert CRat CRat.instMul CRat.instDiv CRat.instOfNatOfNatNat CRat.in
     = convert := rfl
 
 end CRatInstantiation
+
+/-! ## the frequency axes of the model ARE the library's source
+
+`Src.onesidedBins`, `Src.twosidedBins`, `Src.centerdcBins` (`Generated/RangeSrc.lean`) are translated on every run from the
+abstract syntax tree of `Range.onesided_gen` / `twosided_gen` / `centerdc_gen` (`harness/srcgen.py`; every generator yields
+`<integer bin> * self.df`, the translation lists the bins).  The model's `rangeBins` — the axis every length / alignment theorem
+above is about — equals that translation for every NFFT: for the axes the tie between model and code is this theorem, re-checked
+by the kernel against what the source says now. -/
+
+section SourceTie
+set_option linter.unusedSimpArgs false
+
+theorem pyRange_zero_nat (m : ℕ) : Src.pyRange 0 (m : ℤ) = (List.range m).map (fun (k : ℕ) => (k : ℤ)) := by
+  simp [Src.pyRange]
+
+theorem rangeBins_two_eq_source (n : ℕ) : rangeBins .two n = Src.twosidedBins n := by
+  simp [rangeBins, Src.twosidedBins, Src.pyRange, List.map_map]
+
+theorem rangeBins_center_eq_source (n : ℕ) : rangeBins .center n = Src.centerdcBins n := by
+  simp [rangeBins, Src.centerdcBins, Src.pyRange, List.map_map]
+
+theorem rangeBins_one_eq_source (n : ℕ) : rangeBins .one n = Src.onesidedBins n := by
+  simp only [rangeBins, Src.onesidedBins]
+  have h1 : ((n : ℤ) / 2 + 1) = ((n / 2 + 1 : ℕ) : ℤ) := by push_cast; rfl
+  have h2 : (((n : ℤ) + 1) / 2) = (((n + 1) / 2 : ℕ) : ℤ) := by push_cast; rfl
+  have hc : ((n : ℤ) % 2 = 0) ↔ (n % 2 = 0) := by omega
+  rw [h1, h2, pyRange_zero_nat, pyRange_zero_nat]
+  by_cases h : n % 2 = 0
+  · simp [h, hc.mpr h, List.map_map]
+  · have : ¬ ((n : ℤ) % 2 = 0) := fun hh => h (hc.mp hh)
+    simp [h, this, List.map_map]
+
+/-- all three at once -/
+theorem rangeBins_eq_source (sd : Side) (n : ℕ) :
+    rangeBins sd n = match sd with
+      | .one => Src.onesidedBins n | .two => Src.twosidedBins n | .center => Src.centerdcBins n := by
+  cases sd
+  · exact rangeBins_one_eq_source n
+  · exact rangeBins_two_eq_source n
+  · exact rangeBins_center_eq_source n
+
+/-- the translated source is not a degenerate term -/
+example : Src.onesidedBins 6 = [0, 1, 2, 3] ∧ Src.onesidedBins 5 = [0, 1, 2] ∧ Src.centerdcBins 5 = [-2, -1, 0, 1, 2] := by
+  decide
+
+end SourceTie
 
 end SpecVerif.C06
